@@ -19,7 +19,7 @@ THEOREM_BACKED = ("metadata_c11_fixed / geometry_metadata_c11_fixed: for every c
                   "metadata_decoder_is_stack_loop; metadata_decoder_output_canonical")
 EXPLANATION = "full proof on the model of the current (repaired) code; historical counterexamples of the pinned tree kept as theorems"
 TIMEOUT = 3000
-CORR = set()   # TODO: {"corr"} once the symbol decoder model is merged
+CORR = {"corr"}
 
 
 def hx(b):
@@ -62,15 +62,19 @@ def rand_name(rng, allow_long=False):
     return bytes(rng.choice([0, 1, 0x7f, 0x80, 0xff, rng.getrandbits(8)]) for _ in range(n))
 
 
+BUDGET = [0]
+
+
 def rand_value(rng):
     r = rng.random()
     if r < 0.12:
         return b""
     if r < 0.8:
         return gen.rand_bytes(rng, rng.randint(1, 16))
-    if r < 0.97:
+    if r < 0.985 or BUDGET[0] <= 0:
         return gen.rand_bytes(rng, rng.randint(17, 300))
-    return gen.rand_bytes(rng, rng.choice([4096, 65536]))
+    BUDGET[0] -= 1          # at most a few large values per run (the model is slow on multi-megabyte lines)
+    return gen.rand_bytes(rng, rng.choice([4096, 65535, 65536]))
 
 
 def rand_node(rng, depth, allow_long=False):
@@ -119,6 +123,7 @@ def md_oracle(node, trail_len):
 def generate(rng, tier):
     cases = []
     thorough = tier == "thorough"
+    BUDGET[0] = 40 if thorough else 8
     n = 1500 if thorough else 350
     for _ in range(n):
         d = rng.choice([0, 1, 2, 3, 4, 8])
